@@ -11,6 +11,9 @@ var counter uint64
 // Reset restarts the sequence (called by the harness at the start of every execution).
 func Reset() { atomic.StoreUint64(&counter, 0) }
 
+// ResetTo restarts the sequence at n.
+func ResetTo(n uint64) { atomic.StoreUint64(&counter, n) }
+
 func NewSnowFlake(workerID uint32) (*SnowFlake, error) { return &SnowFlake{worker: workerID}, nil }
 
 func (sf *SnowFlake) Next() (uint64, error) {
